@@ -590,6 +590,10 @@ def gen_plan(seed: int, cls: str) -> dict:
     if ro.random() < 0.15:
         extra, nroot = _same_name_enums_scenario(ro, sym, roots, nroot)
         ops.extend(extra)
+    if ro.random() < 0.12:
+        extra, nroot, ninst = _huge_numbers_scenario(ro, sym, roots, nroot, ninst)
+        pos = ro.randrange(len(ops) + 1)
+        ops[pos:pos] = extra
     if ro.random() < 0.3 and ndict < 5:
         extra = _handler_identity_scenario(ro, sym, ndict, knobs)
         ndict += 2
@@ -791,6 +795,30 @@ def _same_name_enums_scenario(ro, sym, roots, nroot):
         data = v if roots[rname][0] == 'enum' else [v, tg.dec(ro.choice(members)[1])]
         out.append({'op': 'convert', 'root': rname, 'data': tg.enc(data), 'custom': None, 'pristine': True})
     return out, nroot
+
+
+def _huge_numbers_scenario(ro, sym, roots, nroot, ninst):
+    """
+    Numbers beyond the interpreter's int <-> str digit limit (4300 digits by default since Python 3.11): a Fraction /
+    int built from one is legal, writing it out as text or parsing that many digits is refused.  Interpreter-wide
+    knobs like that limit must be the same before and after any conversion.
+    """
+    out = []
+    kind = ro.choice(['Fraction', 'Fraction', 'int'])
+    rname = f'r{nroot}'
+    nroot += 1
+    roots[rname] = ['s', kind]
+    out.append({'op': 'build', 'name': rname, 't': roots[rname]})
+    iname = f'i{ninst}'
+    ninst += 1
+    out.append({'op': 'keep', 'as': iname, 'root': rname, 'data': {'pow10': ro.choice([5000, 6000])}})
+    out.append({'op': 'serialise', 'inst': iname, 'root': rname, 'infer': ro.random() < 0.3, 'roundtrip': ro.random() < 0.5, 'custom': None})
+    digits = {'rep': [ro.choice(['7', '1', '9']), ro.choice([4400, 5000])]}
+    for ast in ro.sample([['s', 'Fraction'], ['union', ['s', 'Fraction'], ['s', 'str']], ['s', 'Decimal'], ['s', 'int'],
+                          ['list', ['s', 'Fraction']]], ro.choice([2, 3])):
+        data = digits if ast[0] != 'list' else [digits]
+        out.append({'op': 'inline', 't': tg.normalise_unions(ast), 'data': data, 'custom': None, 'pristine': True})
+    return out, nroot, ninst
 
 
 def _error_content_scenario(ro, sym):
